@@ -503,7 +503,8 @@ def c06_after_failed_compile(ctx, res):
             if os.path.exists(os.path.join(cd, "prog.lc3")):
                 os.remove(os.path.join(cd, "prog.lc3"))
         elif kind == "dev_full":
-            first = lace(ctx, ["compile", "hi.asm", "/dev/full"], cwd=cd)
+            full = common.full_device(ctx)
+            first = lace(ctx, ["compile", "hi.asm", full], cwd=cd) if full else None
         out = []
         for dest in ("prog.lc3", "prog.obj"):
             c = lace(ctx, ["compile", "hi.asm", dest], cwd=cd)
@@ -909,6 +910,10 @@ def c08(ctx, res):
     cp = corpus(ctx)
     d = _dir(ctx, "c08")
     SENT = b"PREVIOUS CONTENTS\n" * 300  # longer than any object file written here
+    # a device that takes no data: a private node like /dev/full (never the machine's own, see common.full_device)
+    FULL = common.full_device(ctx)
+    if FULL is None:
+        res.inconclusive["no character device refusing writes could be set up (neither a private node nor /dev/full)"] = 1
     cases = []  # (kind, source, stack, dest_rel, pre_existing, expected image or None)
     for e in cp["emit_fail"]:
         for pre in (True, False):
@@ -922,7 +927,8 @@ def c08(ctx, res):
         img = b"".join(int(w).to_bytes(2, "big") for w in e["image"])
         for pre in (True, False):
             cases.append(("ok", e["source"], e["stack"], "out.lc3", pre, img))
-        cases.append(("dev_full", e["source"], e["stack"], "/dev/full", True, img))
+        if FULL:
+            cases.append(("dev_full", e["source"], e["stack"], FULL, True, img))
         cases.append(("missing_parent", e["source"], e["stack"], "nodir/out.lc3", False, img))
         cases.append(("dest_is_directory", e["source"], e["stack"], "adir", True, img))
         cases.append(("readonly_dir", e["source"], e["stack"], "ro/out.lc3", False, img))
@@ -1006,7 +1012,10 @@ def c08(ctx, res):
         if r.rc is None or r.crashed:
             res.violate("C08/crash/" + k0, "`lace compile` crashed (exit %s) under fault %s" % (r.rc, kind), detail)
         elif r.rc == 0:
-            if dest == "/dev/full":
+            if kind == "dev_full" and (before is None or before[0] != "special"):
+                # the destination was not the device it was set up to be (somebody else's doing): nothing to conclude
+                res.inconclusive["the full device was not a device when the case ran"] = res.inconclusive.get("the full device was not a device when the case ran", 0) + 1
+            elif kind == "dev_full":
                 res.violate("C08/exit-0-nothing-written/dev_full", "exit 0 although the destination device accepted no data", detail)
             elif after is None or after[0] != "file" or after[1] != img:
                 res.violate("C08/exit-0-incomplete-file/" + k0, "exit 0 but the destination does not hold the complete object file", detail)
